@@ -41,6 +41,10 @@ pub struct Case {
     pub nodes: u8,
     pub metadata_id_ext: bool,
     pub use_cached_metadata: bool,
+    /// the nodes send result metadata along even when asked to skip it (allowed: skipping is an optimisation
+    /// a server may decline, e.g. when the result set no longer matches what was prepared) - without a new id
+    #[serde(default)]
+    pub server_sends_metadata_anyway: bool,
     pub steps: Vec<Step>,
 }
 
@@ -86,6 +90,7 @@ struct NodeState {
 struct St {
     text: String,
     ext: bool,
+    sends_metadata_anyway: bool,
     version: Mutex<u32>,
     nodes: Mutex<Vec<NodeState>>,
     seen: Mutex<Vec<Seen>>,
@@ -162,9 +167,9 @@ impl Script for St {
         let skip = params.flags & QF_SKIP_METADATA != 0;
         let (with_metadata, new_id) = if self.ext {
             let current = result_metadata_id.as_deref() == Some(&meta_id(version)[..]);
-            if current && skip { (false, false) } else { (true, !current) }
+            if current && skip && !self.sends_metadata_anyway { (false, false) } else { (true, !current) }
         } else {
-            (!skip, false)
+            (!skip || self.sends_metadata_anyway, false)
         };
         push(ExecOutcome::Rows { version, with_metadata, announced_new_id: new_id });
         if params.page_size.is_some() && params.paging_state.is_none() && self.evict_after_next_page.swap(false, std::sync::atomic::Ordering::SeqCst) {
@@ -212,6 +217,7 @@ pub fn oracle(c: &Case) -> Verdict {
     let st = Arc::new(St {
         text: text.clone(),
         ext,
+        sends_metadata_anyway: c.server_sends_metadata_anyway,
         version: Mutex::new(0),
         nodes: Mutex::new((0..n_nodes).map(|_| NodeState { prepared: false, id_changed: false }).collect()),
         seen: Mutex::new(vec![]),
@@ -518,13 +524,13 @@ pub fn case() -> BoxedStrategy<Case> {
         2 => Just(Step::ExecuteIter),
         2 => Just(Step::ExecuteIterEvictMidway),
     ];
-    (1u8..=3, any::<bool>(), any::<bool>(), proptest::collection::vec(step, 1..=12))
-        .prop_map(|(nodes, metadata_id_ext, use_cached_metadata, steps)| Case { nodes, metadata_id_ext, use_cached_metadata, steps })
+    (1u8..=3, any::<bool>(), any::<bool>(), prop::bool::weighted(0.25), proptest::collection::vec(step, 1..=12))
+        .prop_map(|(nodes, metadata_id_ext, use_cached_metadata, server_sends_metadata_anyway, steps)| Case { nodes, metadata_id_ext, use_cached_metadata, server_sends_metadata_anyway, steps })
         .boxed()
 }
 
 pub fn run(ctx: &Ctx, rep: &mut Report) {
-    rep.rule = "Cases: a history of 1..12 steps over a prepared statement on a 1..3-node mock cluster: server-side events {evict on a node, schema change (new result columns, with the extension a new metadata id; with or without cache flush), node starts returning a different id on PREPARE} interleaved with client operations {execute_unpaged, batch containing the prepared statement, batch containing it as an unprepared string with values (prepared on the fly; optionally forgotten again before the BATCH arrives), execute_iter over two pages (optionally evicted after the first page)}; with/without the metadata-id extension and with/without use_cached_result_metadata. The mock behaves as a server: UNPREPARED for unknown ids, metadata omitted only when asked (and, with the extension, only when the presented id is current), new id + metadata otherwise. Oracle on the frame log and the caller's results: after UNPREPARED the same connection gets PREPARE then the identical EXECUTE/BATCH; a different id on re-prepare gives an error and no further EXECUTE; result column specs are those sent along or, if omitted, those most recently announced; rows decoded with the matching metadata equal the encoded rows; with the extension every skip-metadata EXECUTE presents the most recently announced id. Non-trivial = an eviction after a schema change, or a batch hitting an evicted statement.".into();
+    rep.rule = "Cases: a history of 1..12 steps over a prepared statement on a 1..3-node mock cluster: server-side events {evict on a node, schema change (new result columns, with the extension a new metadata id; with or without cache flush), node starts returning a different id on PREPARE} interleaved with client operations {execute_unpaged, batch containing the prepared statement, batch containing it as an unprepared string with values (prepared on the fly; optionally forgotten again before the BATCH arrives), execute_iter over two pages (optionally evicted after the first page)}; with/without the metadata-id extension and with/without use_cached_result_metadata. The mock behaves as a server: UNPREPARED for unknown ids, metadata omitted only when asked (and, with the extension, only when the presented id is current), new id + metadata otherwise; in a quarter of the cases the nodes send the metadata along even when asked to skip it (without a new id), which must then be the metadata used. Oracle on the frame log and the caller's results: after UNPREPARED the same connection gets PREPARE then the identical EXECUTE/BATCH; a different id on re-prepare gives an error and no further EXECUTE; result column specs are those sent along or, if omitted, those most recently announced; rows decoded with the matching metadata equal the encoded rows; with the extension every skip-metadata EXECUTE presents the most recently announced id. Non-trivial = an eviction after a schema change, or a batch hitting an evicted statement.".into();
     rep.trusted_base = vec!["mock cluster behaving per the protocol spec for UNPREPARED / skip-metadata / metadata-id semantics".into()];
     rep.assumptions = vec!["operations are issued sequentially (so 'most recently announced' is well defined); concurrent callers are not generated".into()];
     if let Some((check, case_v)) = &ctx.replay {
